@@ -179,8 +179,9 @@ def rule_N2(ctx):
     ctx.ob("N2", bs, "set_routines stores the routines", ok, "", inst="set_routines")
     # context plumbing
     bc = ctx.fn(ST, "Traversable.children", "N2")
-    d = [x for x in own_nodes(bc) if isinstance(x, ast.Dict)]
-    kv = {k.value: norm(v) for x in d for k, v in zip(x.keys, x.values) if isinstance(k, ast.Constant)}
+    from .sem import dict_items
+    rc_ = [c for c in own_nodes(bc) if isinstance(c, ast.Call) and norm(c.func) == "self._f_realize_children" and len(c.args) == 1]
+    kv = (dict_items(bc, rc_[0].args[0]) if len(rc_) == 1 else None) or {}
     ok = kv.get("_elem_routines") == "self._routines" and kv.get("_elem_parent") == "self"
     ctx.ob("N2", bc, "children are realised with _elem_parent = self and _elem_routines = self._routines", ok, f"{kv}", inst="context-additions")
     lp = ctx.fn("smpl_extract/akai/image.py", "AkaiImageParser._load_partitions", "N2")
@@ -199,10 +200,9 @@ def rule_N2(ctx):
     # both actions install both routines
     for an in ("ls_action", "export_samples_to_wav"):
         f = ctx.fn(ACT, an, "N2")
-        dd = [a for a in own_nodes(f) if isinstance(a, (ast.Assign, ast.AnnAssign)) and isinstance(a.value, ast.Dict) and norm(a.targets[0] if isinstance(a, ast.Assign) else a.target) == "routines"]
-        kv = {k.value: norm(v) for a in dd for k, v in zip(a.value.keys, a.value.values) if isinstance(k, ast.Constant)}
-        ok = kv.get("make_safe_names") == "image.make_safe_names_routine" and kv.get("make_export_names") == "image.make_export_names_routine" \
-            and any(norm(c) == "image.set_routines(routines)" for c in own_nodes(f) if isinstance(c, ast.Call))
+        sr_ = [c for c in own_nodes(f) if isinstance(c, ast.Call) and norm(c.func) == "image.set_routines" and len(c.args) == 1]
+        kv = (dict_items(f, sr_[0].args[0]) if len(sr_) == 1 else None) or {}
+        ok = kv.get("make_safe_names") == "image.make_safe_names_routine" and kv.get("make_export_names") == "image.make_export_names_routine" and set(kv) == {"make_safe_names", "make_export_names"}
         ctx.ob("N2", f, f"{an} installs both naming routines (safe names for ls, export names for paths) before touching the tree", ok,
                "" if ok else f"routines installed: {sorted(kv)}: what a later operation on the same image sees depends on which operation ran first", inst=f"{an}:routines")
         # set_routines precedes any traversal
@@ -590,8 +590,10 @@ def rule_N5(ctx):
     ctx.ob("N5", es, "each sample is written to join(destination, inner path) + '.wav'", ok,
            "" if ok else f"written to `{canon_expr(es, ew[0].args[1]) if ew and len(ew[0].args) == 2 else '?'}`", inst="total_path")
     pr = [c for c in own_nodes(es) if isinstance(c, ast.Call) and norm(c.func) == "print"]
-    ok = len(pr) == 1 and canon_expr(es, pr[0].args[0]) == "f'Exported {self.make_output_path(" + sv + ")}.wav'"
-    ctx.ob("N5", es, "the `Exported` line names the same inner path", ok, "" if ok else (canon_expr(es, pr[0].args[0]) if pr else ""), inst="exported-line")
+    from .sem import fmt_parts
+    fp_ = fmt_parts(es, pr[0].args[0]) if len(pr) == 1 and pr[0].args else None
+    ok = fp_ == ["Exported ", ("expr", f"self.make_output_path({sv})"), ".wav"]
+    ctx.ob("N5", es, "the `Exported` line names the same inner path", ok, "" if ok else f"{fp_}", inst="exported-line")
     # who may open for writing
     n = 0
     for m, q, fn in ctx.prog.all_functions():
@@ -970,17 +972,31 @@ def rule_N8(ctx):
     la = ctx.fn(ACT, "ls_action", "N8")
     calls = [c for c in own_nodes(la) if isinstance(c, ast.Call) and norm(c.func) == "image.parse_path"]
     ok = len(calls) == 1
+    det = "parse_path call not found"
     if ok:
         h = find_try_handler(calls[0], la, {"ErrorInvalidPath"})
-        ok = h is not None and any(isinstance(c, ast.Call) and norm(c.func) == "print" for st in h.body for c in ast.walk(st))
+        ok = h is not None
+        det = "ErrorInvalidPath is not handled"
         if ok:
-            tr = h._parent
-            ends = any(isinstance(n, ast.Return) for n in h.body)
-            # nothing that needs the resolved item runs after the handler fell through
-            after_try = [st for st in la.body if st.lineno > (tr.end_lineno or tr.lineno)]
-            ok = ends or not any("item" in {n.id for n in ast.walk(st) if isinstance(n, ast.Name)} for st in after_try)
-            ok = ok and not any(isinstance(n, ast.Raise) for st in h.body for n in ast.walk(st))
-    ctx.ob("N8", la, "ls prints the not-found message and stops (no traceback, no rendering of a stale item)", ok, "", inst="ls-handles")
+            # every (feasible) path through that handler prints the exception and renders nothing; it ends normally
+            from ..core.symexec import run_paths as _rp, calls_on as _co
+            n_h = 0
+            det = ""
+            for p in _rp(ctx, la, include_exc=True, rule="N8", limit=4000):
+                if not any(s_.kind == "except" and s_.ast is h for s_ in p.steps):
+                    continue
+                if any((c == "truthy(0)" and t) or (c == "truthy(1)" and not t) for c, t, _ in p.conds):
+                    continue  # a flag set in the handler contradicts the branch taken
+                n_h += 1
+                names_ = [norm(c.func) for c, e, st in _co(p)]
+                idx_h = [i for i, s_ in enumerate(p.steps) if s_.kind == "except" and s_.ast is h][0]
+                after = [norm(c.func) for c, e, st in _co(p) if p.steps.index(st) > idx_h]
+                printed = any(x == "print" for x in after)
+                rendered = any(x.endswith(("get_info", "to_string")) or x.startswith("item.") for x in after)
+                if p.end == "raise" or not printed or rendered:
+                    ok, det = False, f"after an unknown path: end={p.end}, calls {after}"
+            ok = ok and n_h >= 1
+    ctx.ob("N8", la, "ls prints the not-found message and stops (no traceback, no rendering of a stale item)", ok, "" if ok else det, inst="ls-handles")
     after = [c for c in own_nodes(la) if isinstance(c, ast.Call) and isinstance(c.func, ast.Attribute) and c.func.attr in ("get_info", "to_string")]
     ctx.ob("N8", la, "ls renders the resolved item's info", len(after) == 2, "", inst="ls-renders")
 
